@@ -19,7 +19,7 @@ import common, netlist
 from common import REPO, quiet, zlit, zlist
 from props import c05_designs as D
 
-NEEDED = ['Wire_put', 'Wire_prepare', 'Reg_clock', 'SynchronousMemory_clock', 'AutoReset_clock', 'UARTSerializer_clock',
+NEEDED = ['Wire_put', 'Wire_prepare', 'Reg_clock', 'Sequence_clock', 'SynchronousMemory_clock', 'AutoReset_clock', 'UARTSerializer_clock',
           'CMDRequest_clock', 'CMDResponse_clock']
 
 PRELUDE = ('From V Require Import Base.PyInt Gen.WireOps Gen.Helpers Gen.Prims Gen.Seq Model.SimKernel Model.Trace '
